@@ -10,6 +10,7 @@ flow-direction grid (any integer in any cell: the eight codes, 0, invalid codes)
 inlets (repeated entries, the outlet itself allowed), every buffer size and every start cell.
 -/
 import HydroVerif.Lemmas.C06
+import HydroVerif.Lemmas.C06Real
 
 set_option linter.unusedSectionVars false
 
@@ -277,6 +278,30 @@ theorem delineate_ok_of_room {o nval₀ nval : Int} {inlets A : List Int}
     · rw [e] at hA'; cases hA'
   · rw [e] at h; cases h
 
+/-- **total correctness**: with a valid outlet and valid inlets, the area is returned for some buffer size
+exactly when no flow cycle passes through the outlet (in the graph with the inlets removed); and then it
+is returned for every buffer size with one slot more than it has cells (`delineate_ok_of_room`) -/
+theorem delineate_ok_iff_no_cycle (hc : 0 < g.ncols) {o : Int} {inlets : List Int}
+    (ho : validCell g.nrows g.ncols o = true)
+    (hin : ∀ m ∈ inlets, validCell g.nrows g.ncols m = true) :
+    (∃ nval A, delineateArea codes g o inlets nval = .ok A) ↔
+      ¬ ∃ p, 1 ≤ p ∧ Reaches codes g inlets p o o := by
+  constructor
+  · rintro ⟨nval, A, h⟩ ⟨p, hp, hcyc⟩
+    have h1 : 1 ≤ nval := by
+      rcases delineateArea_cases (codes := codes) (g := g) o inlets nval with
+        ⟨_, e⟩ | ⟨h1, _⟩ | ⟨h1, _⟩ | ⟨h1, _⟩
+      · rw [e] at h; cases h
+      all_goals exact h1
+    obtain ⟨e, he, _⟩ := delineate_cycle_error hc h1 ho hin hp hcyc
+    rw [he] at h; cases h
+  · intro hno
+    obtain ⟨n, hstop⟩ := exists_stop_of_no_cycle (g := g) tableOK hc hno
+    obtain ⟨A, hA⟩ := delineateArea_ok_of_room (codes := codes) (g := g)
+      (nval := (if 1 ≤ n then (1 : Int) else 0) +
+        ((Bfs.layersFrom (upStep codes g inlets) o 0 n).length : Int) + 1) n ho hin hstop (by omega)
+    exact ⟨_, A, hA⟩
+
 /-- **guards and error kinds**: `nval < 1`, an outlet off the grid, an inlet off the grid are rejected in
 that order; otherwise the call returns an area or one of the three buffer-exhaustion errors — the
 model's own recursion bound is never what stops it -/
@@ -360,6 +385,36 @@ theorem flowpath_length (hs1 : Transc.sqrt (1 : α) = 1) {start outlet : Int} {k
   rw [h]
   exact ⟨rfl, rfl, (walk_chainCell tableOK k start outlet hw).1, pathLength_eq_counts hs1 _⟩
 
+/-- **flow paths of a delineated area**: every cell `c` of the area other than the outlet first meets the
+outlet after some `k+1` steps, `k+1` smaller than the number of cells of the area — so the kernel, run on
+the area as `Catchment.compute_flowpathlengths` does, reports the outlet as its end cell and the
+`#orth + √2·#diag` length of its chain -/
+theorem flowpath_on_area (hs1 : Transc.sqrt (1 : α) = 1) (hc : 0 < g.ncols) {o nval : Int}
+    {inlets A : List Int} (h : delineateArea codes g o inlets nval = .ok A) {c : Int}
+    (hcA : c ∈ A) (hco : c ≠ o) :
+    ∃ k, Reaches codes g [] (k + 1) c o ∧ (∀ j, 1 ≤ j → j ≤ k → ¬ Reaches codes g [] j c o) ∧
+      flowPath codes g o A.length c = (o, chainSteps codes g (isDiag g.ncols) (k + 1) c) ∧
+      (pathLength (flowPath codes g o A.length c).2 : α) =
+        (((chainSteps codes g (isDiag g.ncols) (k + 1) c).count false : Nat) : α) +
+        (((chainSteps codes g (isDiag g.ncols) (k + 1) c).count true : Nat) : α) * Transc.sqrt (1 + 1) := by
+  obtain ⟨k, hw, hfirst, hk⟩ := first_hit_of_mem_area (g := g) (delineate_ok_iff hc h).2.1 hcA hco
+  obtain ⟨e1, e2, _, e4⟩ := flowpath_length (α := α) hs1 hw hfirst hk
+  exact ⟨k, hw, hfirst, Prod.ext e1 e2, e4⟩
+
+/-- **flow path that never meets the outlet**: a chain that, after `j` steps none of which enters the outlet,
+stands on a cell draining nowhere (sink, exit, invalid code) is reported with that exit code (`-2` / `-1`) as
+end cell and length 0 — provided the kernel was handed more than `j` cells -/
+theorem flowpath_exit {start outlet x : Int} {j nval : Nat}
+    (hr : Reaches codes g [] j start x) (hv : validCell g.nrows g.ncols x = true)
+    (hno : ∀ i, 1 ≤ i → i ≤ j → chainCell codes g i start ≠ outlet)
+    (hneg : downstreamCell codes g x < 0) (hj : j + 1 ≤ nval) :
+    flowPath codes g outlet nval start = (downstreamCell codes g x, []) ∧
+    (pathLength (flowPath codes g outlet nval start).2 : α) = 0 := by
+  have h := flowPathWith_exit (g := g) (isDiag g.ncols) hr hv hno hneg hj
+  unfold flowPath
+  rw [h]
+  exact ⟨rfl, rfl⟩
+
 /-- **river trace**: the cells are the downstream chain from the start cell and the distance in row `i` is
 the length of the first `i` steps of that chain -/
 theorem river_trace (hs0 : Transc.sqrt (0 : α) = 0) {start nval : Int} {rows : List (RiverRow α)}
@@ -394,6 +449,19 @@ theorem river_guard (start nval : Int) (hv : validCell g.nrows g.ncols start = f
 
 end Lengths
 
+/-- **over the reals**: with `Real.sqrt`, the length of any step sequence is
+`#orthogonal + √2 · #diagonal` -/
+theorem length_real (steps : List Bool) :
+    letI := realTransc
+    (pathLength steps : ℝ) = (steps.count false : ℝ) + Real.sqrt 2 * (steps.count true : ℝ) := by
+  let _ : Transc ℝ := realTransc
+  have h := pathLength_eq_counts (α := ℝ) realTransc_sqrt_one steps
+  rw [h, realTransc_sqrt_two, mul_comm]
+
+/-- over the reals the hypotheses `sqrt 0 = 0`, `sqrt 1 = 1` of the theorems of this section hold -/
+theorem real_sqrt_hyps : realTransc.sqrt (0 : ℝ) = 0 ∧ realTransc.sqrt (1 : ℝ) = 1 :=
+  ⟨realTransc_sqrt_zero, realTransc_sqrt_one⟩
+
 /-- **the defect of the pinned kernel, as a theorem**: on a 2-column grid the step from column 1 of a row to
 column 0 of the next row (south-west) is diagonal, but the pinned classification `|Δidx| == 1 || == ncols`
 calls it orthogonal (length 1 instead of √2) -/
@@ -410,6 +478,13 @@ theorem pinned_step_misclassified (r : Int) (hr : 0 ≤ r) :
   · unfold isDiagPinned
     have : (r + 1) * 2 + 0 - (r * 2 + 1) = 1 := by omega
     rw [this]; simp
+
+/-- … and only there: on every grid that does not have exactly 2 columns the pinned classification of the
+steps of a chain agrees with the row/column test, so flow-path lengths were already right -/
+theorem pinned_wrong_only_on_two_columns (hc : 0 < g.ncols) (h2 : g.ncols ≠ 2) {c : Int}
+    (hv : validCell g.nrows g.ncols c = true) (h0 : 0 ≤ downstreamCell codes g c) :
+    isDiagPinned g.ncols c (downstreamCell codes g c) = isDiag g.ncols c (downstreamCell codes g c) :=
+  isDiagPinned_eq_isDiag tableOK hc h2 hv h0
 
 /-! ### non-vacuity: the hypotheses above are met by concrete grids -/
 
